@@ -288,16 +288,12 @@ class BondPercolation(NewmanZiff):
             self.occupy(n, m)
             self.eventFired(i, None, self.OCCUPY, (n, m))
 
-            # take a sample if this is a sample point
-            if (i + 1) / M >= self._samplepoints[samplePoint]:
+            # take a sample at every sample point reached by this occupation
+            while samplePoint < len(self._samplepoints) and (i + 1) / M >= self._samplepoints[samplePoint]:
                 # we're at the closest probability after the requested sample point,
                 # so build the sample
                 self._samples.append(self.sample(self._samplepoints[samplePoint]))
-
-                # if we've collected all the samples we want, bail out
                 samplePoint += 1
-                if samplePoint > len(self._samplepoints):
-                    break
 
     def do(self, params: Dict[str, Any]) -> List[Dict[str, Any]]:
         '''Perform the percolation process. This passes a permuted
@@ -480,16 +476,12 @@ class SitePercolation(NewmanZiff):
             self.occupy(n)
             self.eventFired(i, None, self.OCCUPY, n)
 
-            # take a sample if this is a sample point
-            if (i + 1) / N >= self._samplepoints[samplePoint]:
+            # take a sample at every sample point reached by this occupation
+            while samplePoint < len(self._samplepoints) and (i + 1) / N >= self._samplepoints[samplePoint]:
                 # we're at the closest probability after the requested sample point,
                 # so build the sample
                 self._samples.append(self.sample(self._samplepoints[samplePoint]))
-
-                # if we've collected all the samples we want, bail out
                 samplePoint += 1
-                if samplePoint > len(self._samplepoints):
-                    break
 
     def do(self, params: Dict[str, Any]) -> List[Dict[str, Any]]:
         '''Perform the percolation process. This passes a permuted
